@@ -191,6 +191,7 @@ func (vc *VC) unsupported(st *State, what string, pos token.Position) {
 func (o *Obligation) query(withModel bool) string {
 	vc := o.vc
 	var b strings.Builder
+	b.WriteString("(set-logic ALL)\n")
 	b.WriteString(vc.u.prelude())
 	for _, a := range vc.u.axioms {
 		b.WriteString("(assert " + a.smt + ")\n")
